@@ -926,7 +926,7 @@ theorem pass_star_of_Dead {x : Re} {Q' Q P : List Nat → Bool} (h : Dead x Q)
     ∀ t, Q' t = false → ∀ u ∈ runs (Re.star x) t, P u = false := by
   intro t ht u hu
   rw [runs_star_of_nil (h.runs_eq (hq t ht))] at hu
-  simp at hu; subst hu; exact hp t ht
+  simp at hu; rw [hu]; exact hp t ht
 
 theorem Sparse1.star_cls (ivs) {P : List Nat → Bool} (hP : ∀ t, P t = true → startsIn ivs t = false) :
     Sparse1 (Re.star (Re.cls ivs)) P := countP_runs_star_cls ivs P hP
@@ -1013,3 +1013,92 @@ theorem PB.of_starFree : ∀ (r : Re), starFree r = true → PB r 0
   | .star _, h => by simp [starFree] at h
 
 end Verif.Proofs.ReCost
+
+/-! ### the statements used by Props/C18.lean -/
+
+namespace Verif.Proofs
+open Verif Verif.Re Verif.Proofs.ReCost
+
+/-- `re.sub` tries the pattern at every position -/
+theorem sub_cost (r : Re) (c d : Nat) (h : PolyBounded r c d) (s : List Nat) :
+    ((List.range (s.length + 1)).map (fun i => Re.work r (s.drop i))).sum ≤ c * (s.length + 1) ^ (d + 1) := by
+  have h1 := sum_map_le_mul (List.range (s.length + 1)) (fun i => Re.work r (s.drop i)) (B c d s.length)
+    (fun i _ => Nat.le_trans (h _) (B_mono (Nat.le_refl _) (Nat.le_refl _) (by rw [List.length_drop]; omega)))
+  rw [List.length_range, succ_mul_B] at h1
+  exact h1
+
+/-! #### the nested repetition `'([^'\\]+)+'` -/
+
+/-- `[^'\\]` -/
+def npX : Re := .cls [(0, 38), (40, 91), (93, 1114111)]
+/-- `y+` -/
+def rePlus (y : Re) : Re := .cat y (.star y)
+/-- `'([^'\\]+)+'` -/
+def nestedPlusPattern : Re := .cat (.cls [(39, 39)]) (.cat (rePlus (rePlus npX)) (.cls [(39, 39)]))
+
+private def aN (n : Nat) : List Nat := List.replicate n 97
+
+private theorem aN_succ (n : Nat) : aN (n + 1) = 97 :: aN n := rfl
+
+private theorem runs_starX (k : Nat) : runs (star npX) (aN k) = (List.range (k + 1)).map aN := by
+  induction k with
+  | zero => exact runs_star_cls_nil _
+  | succ k ih =>
+    rw [aN_succ, npX, runs_star_cls_cons, if_pos (by decide), ← npX, ih, List.range_succ (n := k + 1),
+      List.map_append]
+    rfl
+
+private theorem runs_plusX (k : Nat) : runs (rePlus npX) (aN k) = (List.range k).map aN := by
+  cases k with
+  | zero => rw [rePlus, runs_cat, npX]; show List.flatMap _ (runs (cls _) []) = _; rw [runs_cls_nil]; rfl
+  | succ k =>
+    rw [rePlus, runs_cat, aN_succ, npX, runs_cls_cons, if_pos (by decide), ← npX]
+    simp [runs_starX]
+
+private theorem runs_star_plusX_length (k : Nat) :
+    (runs (star (rePlus npX)) (aN k)).length
+      = ((List.range k).map (fun j => (runs (star (rePlus npX)) (aN j)).length)).sum + 1 := by
+  rw [runs_star, runs_plusX, List.filter_eq_self.mpr, List.length_append, List.length_flatMap, List.map_map]
+  · rfl
+  · intro t ht
+    rw [List.mem_map] at ht
+    obtain ⟨j, hj, rfl⟩ := ht
+    simpa [aN] using hj
+
+private theorem sum_range_succ (f : Nat → Nat) (k : Nat) :
+    ((List.range (k + 1)).map f).sum = ((List.range k).map f).sum + f k := by
+  rw [List.range_succ, List.map_append, List.sum_append]; simp
+
+private theorem sum_star_plusX (k : Nat) :
+    ((List.range k).map (fun j => (runs (star (rePlus npX)) (aN j)).length)).sum + 1 = 2 ^ k := by
+  induction k with
+  | zero => rfl
+  | succ k ih =>
+    rw [sum_range_succ, runs_star_plusX_length k, Nat.pow_succ]; omega
+
+/-- the number of ways `([^'\\]+)*` splits `aaa…a` doubles with every character -/
+theorem nestedPlus_runs (k : Nat) : (runs (star (rePlus npX)) (List.replicate k 97)).length = 2 ^ k := by
+  have := runs_star_plusX_length k
+  rw [← sum_star_plusX k]; exact this
+
+theorem work_rePlus_rePlus_ge (n : Nat) : 2 ^ n ≤ work (rePlus (rePlus npX)) (List.replicate n 97) := by
+  show _ ≤ work (rePlus (rePlus npX)) (aN n)
+  rw [rePlus, work_cat, runs_plusX]
+  have h := sum_map_le ((List.range n).map aN) (fun t => (runs (star (rePlus npX)) t).length)
+    (work (star (rePlus npX))) (fun t _ => runs_length_le_work _ t)
+  rw [List.map_map] at h
+  have h2 := sum_star_plusX n
+  simp only [Function.comp_def] at h
+  omega
+
+/-- the search tree of the nested repetition at least doubles with every added character on the
+    unterminated inputs `'aaa…a` -/
+theorem nestedPlus_exponential (n : Nat) :
+    2 ^ n ≤ Re.work nestedPlusPattern (39 :: List.replicate n 97) := by
+  rw [nestedPlusPattern, work_cat, runs_cls_cons, if_pos (by decide)]
+  simp only [List.map_cons, List.map_nil, List.sum_cons, List.sum_nil]
+  rw [work_cat]
+  have := work_rePlus_rePlus_ge n
+  omega
+
+end Verif.Proofs
